@@ -503,7 +503,7 @@ Proof.
   intros t s net rpid nh a filt nhinv lim. cbn [step]. unfold insert. cbv zeta.
   destruct (ins_over t lim _); [intros _; reflexivity|].
   destruct (ins_pid _ _ _) as [pn|]; [|cbn [snd]; intro H; discriminate H].
-  unfold ins_out. destruct (t_deferring t && _); [cbn [snd]; intro H; discriminate H|].
+  unfold ins_out. destruct (t_deferring t); [cbn [snd]; intro H; discriminate H|].
   destruct (negb _ && _); cbn [snd]; intro H; discriminate H.
 Qed.
 
